@@ -3,7 +3,8 @@
 From Coq Require Import ZArith List QArith Qcanon.
 From Batchie Require Import Lib.Sexp Lib.Num Model.Chunks Model.DistMat Model.Mse
   Proofs.C07Chunks Proofs.C07DistMat Proofs.C07Mse Proofs.C07Src Generated.SrcArith
-  Lib.PyRt Generated.SrcChunks Proofs.C07Source.
+  Lib.PyRt Generated.SrcChunks Proofs.C07Source Generated.SrcDistMat Generated.SrcMse Proofs.C07SourceMat
+  Proofs.C07SourceMse Proofs.C07SourcePipeline.
 Import ListNotations.
 
 (* the chunk arithmetic the theorems are about IS the source's arithmetic: src_chunk_bounds is
@@ -21,6 +22,131 @@ Theorem C07_model_is_source_enumeration :
   (forall n : Z, n <= 0 -> src_lower_triangular_indices n = Ok []).
 Proof. exact (conj src_lower_tri_is_model src_lower_tri_negative). Qed.
 Print Assumptions C07_model_is_source_enumeration.
+
+(* ... and get_lower_triangular_indices_chunk as ONE whole function (the assert, the arithmetic, the generator's list,
+   consume(g, start) and list(islice(g, k)) as skipn / firstn that refuse a negative count; consume and
+   get_number_of_lower_triangular_indices are translated too) IS Chunks.chunk_checked for all integer arguments, which for a
+   chunk index in range 0 <= k < c is Chunks.chunk - the function all partition theorems below are about *)
+Theorem C07_model_is_source_get_lower_triangular_indices_chunk :
+  (forall n k c : Z, src_get_lower_triangular_indices_chunk n k c = chunk_checked n k c) /\
+  (forall (n : nat) (k c : Z), (0 <= k < c)%Z -> chunk_checked (Z.of_nat n) k c = Ok (map zpair (chunk n k c))) /\
+  (forall (n k c : Z) l, (n <= 0)%Z -> chunk_checked n k c = Ok l -> l = []).
+Proof. exact (conj src_chunk_is_model (conj chunk_checked_in_range chunk_checked_negative)). Qed.
+Print Assumptions C07_model_is_source_get_lower_triangular_indices_chunk.
+
+(* ---- ChunkedDistanceMatrix, method by method.  The translations work on the object as it is stored (DistMat.cdm: size,
+   chunk_size, current_index and the three parallel arrays as lists); the model's entry list is read off by the
+   representation map dm_of_storage (entry k = (row_indices[k], col_indices[k], values[k]), k < current_index).
+   storage_ok is what every constructed object satisfies (three arrays of one length, current_index within it, every slot
+   from current_index on still zero); each theorem re-establishes it for the object it returns (storage_refines).
+   V is the type of a stored value, vzero the zero np.zeros fills with, visz the test `x == 0`. ---- *)
+
+(* __init__: `if chunk_size:` takes the argument unless it is None or 0 and otherwise falls back to the length of the
+   chunk (init_chunk_size); a negative size is refused by np.zeros; the new object is well formed and represents the
+   empty matrix *)
+Theorem C07_model_is_source_init : forall (V : Type) (vzero : V) (visz : V -> bool), visz vzero = true ->
+  (forall (self0 : cdm V) (size n_chunks chunk_index : Z) (chunk_size : option Z),
+     src_cdm_init V vzero visz self0 size n_chunks chunk_index chunk_size
+     = dor c <- init_chunk_size size n_chunks chunk_index chunk_size;
+       if (c <? 0)%Z then Err 13%Z else Ok (cdm_fresh vzero size c)) /\
+  (forall size c : Z, (0 <= c)%Z ->
+     storage_ok vzero visz (cdm_fresh vzero size c) /\ dm_of_storage vzero (cdm_fresh vzero size c) = dm_empty V size).
+Proof. exact (fun V vzero visz H => conj (src_init_is_model V vzero visz) (fresh_ok V vzero visz H)). Qed.
+Print Assumptions C07_model_is_source_init.
+
+(* add_value (with _expand_storage, translated too): on a well-formed object with room - a free slot, or a positive
+   chunk_size to grow by - it is the model's add_value: the bounds guard (>=), the order guard (<), then the entry appended;
+   none of the three "already calculated" tests can fire.  Without room (an object built for an EMPTY chunk: chunk_size 0)
+   a value that passes the guards meets an IndexError. *)
+Theorem C07_model_is_source_add_value : forall (V : Type) (vzero : V) (visz : V -> bool) (st : cdm V) (i j : Z) (v : V),
+  storage_ok vzero visz st ->
+  (has_room st ->
+   storage_refines vzero visz (src_cdm_add_value V vzero visz st i j v) (add_value V (dm_of_storage vzero st) i j v)) /\
+  (~ has_room st ->
+   src_cdm_add_value V vzero visz st i j v
+   = if ((i >=? c_size st) || (j >=? c_size st))%Z then Err 1%Z else if (i <? j)%Z then Err 2%Z else Err 98%Z).
+Proof.
+  exact (fun V vzero visz st i j v H =>
+    conj (src_add_value_is_model V vzero visz st i j v H) (src_add_value_no_room V vzero visz st i j v H)).
+Qed.
+Print Assumptions C07_model_is_source_add_value.
+
+Theorem C07_model_is_source_is_complete : forall (V : Type) (vzero : V) (visz : V -> bool) (st : cdm V),
+  storage_ok vzero visz st ->
+  src_cdm_is_complete V vzero visz st = Ok (is_complete V (dm_of_storage vzero st)).
+Proof. exact src_is_complete_is_model. Qed.
+Print Assumptions C07_model_is_source_is_complete.
+
+(* combine: the size test, the copy of self's used prefix into a new object, then every entry of other whose (row, col)
+   is not among the keys stored so far, through the translated add_value.  The side condition says the new object can
+   take a value (it is built with chunk_size = self.current_index, or - when that is 0 - the number of all pairs, which is
+   0 only for size < 2): a matrix of size < 2 is not combined with one that holds a value *)
+Theorem C07_model_is_source_combine : forall (V : Type) (vzero : V) (visz : V -> bool), visz vzero = true ->
+  forall a b : cdm V, storage_ok vzero visz a -> storage_ok vzero visz b ->
+  (c_cur b = 0 \/ c_cur a <> 0 \/ 2 <= c_size a)%Z ->
+  storage_refines vzero visz (src_cdm_combine V vzero visz a b)
+                  (combine V (dm_of_storage vzero a) (dm_of_storage vzero b)).
+Proof. exact src_combine_is_model. Qed.
+Print Assumptions C07_model_is_source_combine.
+
+(* concat (roomy: a matrix that holds a value has size >= 2 - there is no pair below the diagonal otherwise) *)
+Theorem C07_model_is_source_concat : forall (V : Type) (vzero : V) (visz : V -> bool), visz vzero = true ->
+  forall ms : list (cdm V), Forall (storage_ok vzero visz) ms -> Forall roomy (tl ms) ->
+  storage_refines vzero visz (src_cdm_concat V vzero visz ms) (dm_concat V (map (dm_of_storage vzero) ms)).
+Proof. exact src_concat_is_model. Qed.
+Print Assumptions C07_model_is_source_concat.
+
+(* to_dense: the refusal of an incomplete matrix, then both cells (i, j) and (j, i) of a zero matrix written per entry,
+   for an object whose stored index pairs address cells of the matrix (entries_in_range) *)
+Theorem C07_model_is_source_to_dense : forall (V : Type) (vzero : V) (visz : V -> bool) (st : cdm V),
+  storage_ok vzero visz st -> entries_in_range st ->
+  src_cdm_to_dense V vzero visz st = to_dense V vzero (dm_of_storage vzero st).
+Proof. exact src_to_dense_is_model. Qed.
+Print Assumptions C07_model_is_source_to_dense.
+
+(* calculate_pairwise_distance_matrix_on_predictions for ANY holder / prediction method / metric (get_theta, predict,
+   dist): for a chunk index in range it is the model's compute_chunk with d i j = dist (predict (get_theta i))
+   (predict (get_theta j)); outside the range it fails as get_lower_triangular_indices_chunk does, before any distance *)
+Theorem C07_model_is_source_calculate_pairwise : forall (V : Type) (vzero : V) (visz : V -> bool), visz vzero = true ->
+  forall (Th Pr : Type) (get_theta : Z -> Th) (predict : Th -> Pr) (dist : Pr -> Pr -> V),
+  (forall (n : nat) (k c : Z), (0 <= k < c)%Z ->
+     storage_refines vzero visz
+       (src_calculate_pairwise V vzero visz Th Pr (Z.of_nat n) get_theta predict dist k c)
+       (compute_chunk V (metric_of V Th Pr get_theta predict dist) n k c)) /\
+  (forall (n k c t : Z), chunk_checked n k c = Err t ->
+     src_calculate_pairwise V vzero visz Th Pr n get_theta predict dist k c = Err t).
+Proof.
+  exact (fun V vzero visz H Th Pr g p d =>
+    conj (src_calculate_is_model V vzero visz H Th Pr g p d) (src_calculate_bad_chunk V vzero visz Th Pr g p d)).
+Qed.
+Print Assumptions C07_model_is_source_calculate_pairwise.
+
+(* save / load with the h5py calls as primitives over the record of the file's four datasets: save writes the used
+   prefixes of the three arrays and [size] (file_of_storage); loading what save wrote gives a well-formed object that
+   represents the same matrix - the model's dm_load (dm_save m) *)
+Theorem C07_model_is_source_save_load : forall (V : Type) (vzero : V) (visz : V -> bool), visz vzero = true ->
+  (forall st : cdm V, src_cdm_save V vzero visz st = Ok (file_of_storage st)) /\
+  (forall st : cdm V, storage_ok vzero visz st ->
+     storage_refines vzero visz (dor f <- src_cdm_save V vzero visz st; src_cdm_load V vzero visz f)
+                     (Ok (dm_load V (dm_save V (dm_of_storage vzero st))))).
+Proof. exact (fun V vzero visz H => conj (src_save_is_model V vzero visz) (src_load_save_is_model V vzero visz H)). Qed.
+Print Assumptions C07_model_is_source_save_load.
+
+(* the translated functions composed as the command line composes them (per listed chunk index one calculate_..., save,
+   load; then concat, to_dense) ARE the model's pipeline, the subject of C07_assemble / C07_incomplete_refused *)
+Theorem C07_model_is_source_pipeline : forall (V : Type) (vzero : V) (visz : V -> bool), visz vzero = true ->
+  forall (Th Pr : Type) (get_theta : Z -> Th) (predict : Th -> Pr) (dist : Pr -> Pr -> V) (n : nat) (c : Z) (order : list Z),
+  order <> [] -> (forall k, In k order -> (0 <= k < c)%Z) ->
+  src_pipeline V vzero visz Th Pr get_theta predict dist n c order
+  = pipeline V vzero (metric_of V Th Pr get_theta predict dist) n c order.
+Proof. exact src_pipeline_is_model. Qed.
+Print Assumptions C07_model_is_source_pipeline.
+
+(* MSEDistance.distance on two prediction vectors of one length (expit the oracle, numpy's - ** mean as primitives) *)
+Theorem C07_model_is_source_mse_distance : forall (orc : oracle) (sigmoid : bool) (a b : list Qc), length a = length b ->
+  src_mse_distance orc sigmoid a b = mse_distance orc sigmoid a b.
+Proof. exact src_mse_is_model. Qed.
+Print Assumptions C07_model_is_source_mse_distance.
 
 (* the chunks, concatenated in index order, are the enumeration of all pairs i>j *)
 Theorem C07_chunks_partition : forall n c, (0 < c)%nat -> concat (all_chunks n c) = lower_tri n.
@@ -106,4 +232,16 @@ Example C07_assemble_example :
 Proof. vm_compute. reflexivity. Qed.
 Example C07_incomplete_example :
   pipeline Z 0%Z (fun i j => Z.of_nat (10 * i + j)) 4 3%Z [2; 0]%Z = Err 5%Z.
+Proof. vm_compute. reflexivity. Qed.
+(* the translated source itself, run on concrete inputs: the same pipeline instance as above through the translations
+   of calculate_pairwise_distance_matrix_on_predictions, concat and to_dense (the metric reads samples 10 * i + j) ... *)
+Example C07_source_pipeline_example :
+  src_pipeline Z 0%Z (Z.eqb 0) Z Z (fun i => i) (fun t => t) (fun a b => (10 * a + b)%Z) 4 3%Z [2; 0; 2; 1]%Z
+  = Ok [[0; 10; 20; 30]; [10; 0; 21; 31]; [20; 21; 0; 32]; [30; 31; 32; 0]]%Z.
+Proof. vm_compute. reflexivity. Qed.
+(* ... and the degenerate object of C07_model_is_source_add_value's second clause: built for the empty last chunk of a
+   3 x 3 matrix cut in 4 (chunk_size 0), it refuses a valid pair with an IndexError *)
+Example C07_source_empty_chunk_object_example :
+  (dor m <- src_cdm_init Z 0%Z (Z.eqb 0) (cdm_blank Z) 3%Z 4%Z 3%Z None; src_cdm_add_value Z 0%Z (Z.eqb 0) m 1%Z 0%Z 5%Z)
+  = Err 98%Z.
 Proof. vm_compute. reflexivity. Qed.
